@@ -158,6 +158,17 @@ example : (∀ c ∈ mDisjoint, c.WF) ∧ (∀ c ∈ mDisjoint, c.asc = (writerO
     (concatNulls mDisjoint).any id = false ∧ multiIsAscending 0 mDisjoint = true ∧
     findMultiGo false 0 mDisjoint 75 = 3 := by decide
 
+-- the hypotheses of `find_no_miss_multi_writer` are satisfiable: it applies to `mDisjoint`
+theorem mDisjoint_le : ∀ c ∈ mDisjoint, ∀ i a b, i < c.n → minAt c.ix i = some a → maxAt c.ix i = some b → a ≤ b := by
+  intro c hc i a b hi ha hb
+  simp only [mDisjoint, List.mem_cons, List.mem_nil_iff, or_false] at hc
+  rcases hc with rfl | rfl <;>
+  · simp only [Chunk.n, Index.n, List.length_cons, List.length_nil] at hi
+    have : i = 0 ∨ i = 1 := by omega
+    rcases this with rfl | rfl <;> simp [minAt, maxAt] at ha hb <;> omega
+
+example := find_no_miss_multi_writer false 0 mDisjoint 75 (by decide) (by decide) (by decide) mDisjoint_le
+
 /-- the layout of seeded change C06-3a, (0,9) (10,50) | (20,29) (30,60): each row group ascending, ranges overlap -/
 def mOverlap : List Chunk :=
   [ { nulls := [false, false], ix := { mins := [some 0, some 10], maxs := [some 9, some 50] }, asc := true, desc := false },
@@ -236,6 +247,13 @@ def fNaN : FIndex := { mins := [.val 5, .nan, .val 1], maxs := [.val 7, .nan, .v
 
 example : writerOrderF 0 fNaN = 0 ∧ findF false (writerOrderF 0 fNaN == 1) fNaN 2 = 1 ∧
     containsF false fNaN 2 2 = true := by decide
+
+-- the hypotheses of `find_no_miss_writer_float` are satisfiable: it applies to `fNaN`
+example := find_no_miss_writer_float false 0 fNaN 2 (by decide) (by
+  intro i a b hi ha hb
+  simp only [fNaN, FIndex.n, List.length_cons, List.length_nil] at hi
+  have : i = 0 ∨ i = 1 ∨ i = 2 := by omega
+  rcases this with rfl | rfl | rfl <;> simp [fNaN, minAtF, maxAtF] at ha hb <;> omega)
 
 /-- why the order claim must go: the binary search steps over the NaN page and misses page 2 (finding
     `boundary-order-false-nan-page`, repaired by 2854665) -/
